@@ -206,6 +206,10 @@ type family struct {
 	Gen   func(g *gen) []qspec
 	Specs []qspec // replay: explicit list; otherwise generated on first use
 
+	Idx          int    // position in the family list: selects the dump/load mode of the reload script
+	ReloadMode   string // replay: mode of the reload script ("" = none)
+	ReloadStored []int  // replay: indices stored before the dump
+
 	Weight  int // rough size, for scheduling only
 	once    sync.Once
 	pending atomic.Int32
@@ -588,15 +592,16 @@ func kindText(s *qspec) string {
 // replayCase is what a replay file carries: the queries (in insertion order)
 // and how the cache was driven.
 type replayCase struct {
-	Key     string     `json:"key,omitempty"`
-	Family  string     `json:"family"`
-	Via     string     `json:"via"`
-	Lazy    bool       `json:"lazy_cache"`
-	Order   string     `json:"order_observed"`
-	Queries []specJSON `json:"queries"`
-	Note    string     `json:"note,omitempty"`
-	Detail  any        `json:"detail,omitempty"`
-	Chain   *chainCase `json:"chain,omitempty"` // chain phase witness (chains.go)
+	Key     string      `json:"key,omitempty"`
+	Family  string      `json:"family"`
+	Via     string      `json:"via"`
+	Lazy    bool        `json:"lazy_cache"`
+	Order   string      `json:"order_observed"`
+	Queries []specJSON  `json:"queries"`
+	Note    string      `json:"note,omitempty"`
+	Detail  any         `json:"detail,omitempty"`
+	Chain   *chainCase  `json:"chain,omitempty"`  // chain phase witness (chains.go)
+	Reload  *reloadInfo `json:"reload,omitempty"` // reload phase witness (reload.go)
 }
 
 func (r *runner) caseFor(idx []int) replayCase {
@@ -620,7 +625,8 @@ func main() {
 			defer pprof.StopCPUProfile()
 		}
 	}
-	rep.SetRule("families of queries (all 65536 types; all 65536 classes; type x class x AD/CD/DO grids; single- and double-bit neighbours of random (type,class,flags) triples; random triples; names: every wire length 1..255, every single-byte and two-byte label, one-byte substitutions, case variants, label-boundary / escaped-dot variants, escape-alphabet enumeration, extra leading/trailing labels, name x type x class grids; AD/CD/DO x layouts of Q()'s additional section (other records before/after the OPT); bypass messages; every query of every family also gets a random such layout) are run through the real cache plugin on fresh caches sized 4x the family, once in insertion order and once in reverse: pass 1 stores a unique marker per query, pass 2 replays all queries. One case = (question, order); non-trivial = the query was answered from the cache in pass 2 and the marker it carried was compared with its own (bypass cases: the message reached the terminal with no response set); distinct = distinct (name, type, class, AD, CD, DO, order). Chain phase (chains.go): the real cache inside sequences built from rule text with name-rewriting wrappers in front of it and/or behind it (the real redirect plugin: alias->target, alias->intermediate->target across the cache; an in-place lower-casing wrapper), `matches: has_resp / exec: accept` behind the cache, a stub upstream that answers with a marker naming the question IT was asked, a post-processing plugin that can fail after the response was set (also inside a background refresh), and in some layouts a hosts-like plugin in front of everything that already set a response for the client's own question; seeded scripts of client queries (aliases, intermediates, targets, unrelated names, case variants, name lengths over all key-buffer size classes, 6 types, IN/CH, AD/CD/DO, injected failures after / without a response) and lazy_cache_ttl scripts (entries go stale, their background refreshes are parked at the upstream while same-key-length and other queries pass, then finish; half of them on a single P); one case = one client query; every served response is judged: question section == client question and marker issued by the upstream for the question the rewriters lead to (or by the plugin in front for the client's name / the name the cache sees), with the client's type, class, AD/CD/DO; non-trivial = served from the cache, distinct = (layout, lazy, asker role, who stored the entry incl. failed chains / background refresh, fresh|stale, flags, type, class, key length)")
+	rep.SetRule("families of queries (all 65536 types; all 65536 classes; type x class x AD/CD/DO grids; single- and double-bit neighbours of random (type,class,flags) triples; random triples; names: every wire length 1..255, every single-byte and two-byte label, one-byte substitutions, case variants, label-boundary / escaped-dot variants, escape-alphabet enumeration, extra leading/trailing labels, name x type x class grids; AD/CD/DO x layouts of Q()'s additional section (other records before/after the OPT); bypass messages; every query of every family also gets a random such layout) are run through the real cache plugin on fresh caches sized 4x the family, once in insertion order and once in reverse: pass 1 stores a unique marker per query, pass 2 replays all queries. One case = (question, order); non-trivial = the query was answered from the cache in pass 2 and the marker it carried was compared with its own (bypass cases: the message reached the terminal with no response set); distinct = distinct (name, type, class, AD, CD, DO, order). Chain phase (chains.go): the real cache inside sequences built from rule text with name-rewriting wrappers in front of it and/or behind it (the real redirect plugin: alias->target, alias->intermediate->target across the cache; an in-place lower-casing wrapper), `matches: has_resp / exec: accept` behind the cache, a stub upstream that answers with a marker naming the question IT was asked, a post-processing plugin that can fail after the response was set (also inside a background refresh), and in some layouts a hosts-like plugin in front of everything that already set a response for the client's own question; seeded scripts of client queries (aliases, intermediates, targets, unrelated names, case variants, name lengths over all key-buffer size classes, 6 types, IN/CH, AD/CD/DO, injected failures after / without a response) and lazy_cache_ttl scripts (entries go stale, their background refreshes are parked at the upstream while same-key-length and other queries pass, then finish; half of them on a single P); one case = one client query; every served response is judged: question section == client question and marker issued by the upstream for the question the rewriters lead to (or by the plugin in front for the client's name / the name the cache sees), with the client's type, class, AD/CD/DO; non-trivial = served from the cache, distinct = (layout, lazy, asker role, who stored the entry incl. failed chains / background refresh, fresh|stale, flags, type, class, key length). Reload phase (reload.go): every family x order is run once more across a dump -> load round trip: a fresh cache stores a seeded half S of the family (stored responses carry AD/CD/AA bits and no OPT | OPT | OPT+DO unrelated to the query's, derived from the query ID), is dumped (dump_file at Close | GET /dump) and the dump is loaded into another cache (dump_file at start | POST /load_dump into an empty cache | into a cache already holding the answers of the queries not in S | two generations of dump_file | a real mosdns instance built from a config map with cache+sequence plugins, shut down and started again | that instance's /plugins/<tag>/dump and /load_dump), 6 modes spread over the families; then ALL queries of the family are asked on the loaded cache: a query answered from it must carry its own marker or that of a query with the same name, type, class and AD/CD/DO; bypass messages must still bypass; one case = (question, order), non-trivial = answered from a loaded cache and the marker compared, distinct = 'reload/' + (name, type, class, AD, CD, DO, order). Families added with it (names2.go): names of every presentation-format length class (the plugin sees names as miekg text: 1..1004 characters for <= 255 wire bytes; targets around 256, 512, 768, the maximum, random others; three label layouts; mixes of plain, 2-character and 4-character escapes) x all 8 flag combinations x 2 (type, class) cells, and long names differing in one byte anywhere / in their last label x 2 flag combinations")
+	rep.Assume("reload phase: a stored answer that is not found after the round trip is not a violation (the statement does not promise complete dumps); a job losing more than 1% of them is reported inconclusive because collisions could hide behind the misses")
 	rep.Assume("'query' = the message the cache plugin is given, qCtx.Q(): query_context does not forward the client's OPT/DO, so DO is varied on Q()'s own OPT; queries differing only in ID, RD, the client's OPT or the other records a plugin placed around Q()'s OPT may share an entry")
 	rep.Assume("names are compared byte-exactly on the wire (case variants and escaped-dot variants are different questions: the cached response carries the stored question section)")
 	rep.Assume("chain phase: a response is \"served\" when the sequence returns no error and a response is set (on an error the server answers SERVFAIL itself); the model of the rewriters (redirect: case-insensitive full match, class IN only; wrapper: lower-casing) decides which question the upstream has to be asked; nothing is demanded about CNAME records, TTLs or whether a failed chain's response is stored")
@@ -647,6 +653,9 @@ func main() {
 			}
 			f.Specs = append(f.Specs, s)
 		}
+		if c.Reload != nil {
+			f.ReloadMode, f.ReloadStored = c.Reload.Mode, c.Reload.Stored
+		}
 		fams = []*family{f}
 		replayKey = c.Key
 	} else {
@@ -660,6 +669,7 @@ func main() {
 	}
 	var mu sync.Mutex
 	var total jobStats
+	var totalReload reloadStats
 	minRatio := int64(1000)
 	var jobs atomic.Int64
 	famSizes := map[string]int{}
@@ -686,9 +696,24 @@ func main() {
 			return
 		}
 		st := r.run()
+		// the same family and order once more, across a dump -> load round trip (reload.go)
+		var rs reloadStats
+		switch {
+		case rep.ReplayFile == "":
+			rs = r.runReload(reloadModeFor(t.fam.Idx, t.order), storedSubset(t.fam.Seed, t.order, len(specs)))
+		case t.fam.ReloadMode != "":
+			stored := make([]bool, len(specs))
+			for _, i := range t.fam.ReloadStored {
+				if i >= 0 && i < len(stored) {
+					stored[i] = true
+				}
+			}
+			rs = r.runReload(t.fam.ReloadMode, stored)
+		}
 		jobs.Add(1)
 		mu.Lock()
 		defer mu.Unlock()
+		totalReload.add(rs)
 		total.execs += st.execs
 		total.stores += st.stores
 		total.earlyHits += st.earlyHits
@@ -778,7 +803,9 @@ func main() {
 	if total.hitsOwn+total.shared == 0 && rep.ReplayFile == "" {
 		rep.Inconclusive("no query was ever answered from the cache: the monitor observed nothing")
 	}
+	reloadEvidence(&totalReload, rep.ReplayFile != "")
 	agg.finish(replayKey)
+	aggReload.finish(replayKey)
 	pprof.StopCPUProfile()
 	rep.Finish()
 }
